@@ -1,5 +1,7 @@
-import Driver.Util
-/-! `drv_logfile`: not built yet -/
+import Driver.LogfileDrv
+open Driver
+
 def main : IO UInt32 := do
-  IO.eprintln "drv_logfile: engine not implemented"
-  return 2
+  let lines ← readLines (← IO.getStdin) #[]
+  LogfileDrv.main lines
+  return 0
